@@ -13,7 +13,10 @@ import pathlib
 from mc import models, values
 from mc.models import T
 
-E_MEMBERS = ['red', 'true', 'False', 'yes', 'null', 'n', 'a_b']
+# member names are written by their own representer, not as Python strings: names that are scalars of another type in
+# YAML 1.2 and / or 1.1 (floats with an exponent but no sign or no fraction, ints, a date) belong here too
+E_MEMBERS = ['red', 'true', 'False', 'yes', 'null', 'n', 'a_b', '1e5', '.5e3', '1.5e3', '-2E2', '0x1F', '1_000', '2001-01-01', '.inf',
+             '~', '1:30']
 BASE = [
     {'name': 'E', 'kind': 'enum', 'members': E_MEMBERS},
     {'name': 'S', 'kind': 'userstring'},
@@ -38,6 +41,10 @@ STRING_POSITIONS = collections.OrderedDict([
     ('any', ('any', [], lambda b, s: {'k': [s]})),
     ('untyped-attr', (('cls', 'K'), [{'name': 'K', 'params': [('u', 'untyped')]}], lambda b, s: b.classes['K'](s))),
     ('userstring', (('cls', 'S'), [], lambda b, s: b.classes['S'](s))),
+    # a sweetener that reads a string attribute and writes it back through Node.set_attribute(): the scalar node is then
+    # made by the helper, not by the dumper's string representer
+    ('sweeten-rewrites-attr', (('cls', 'K'), [{'name': 'K', 'params': [('s', 'str'), ('n', 'int', 0)],
+                                               'hooks': {'sweeten': [('value_roundtrip', 's')]}}], lambda b, s: b.classes['K'](s))),
     ('ystring-key', (('dict', ('cls', 'Sy'), 'int'), [], lambda b, s: {b.classes['Sy'](s): 1})),
     ('strsub-in-class', (('cls', 'K'), [{'name': 'K', 'params': [('w', ('cls', 'Ss')), ('l', ('list', ('cls', 'S')), None)]}],
                          lambda b, s: b.classes['K'](b.classes['Ss'](s), [b.classes['S'](s)]))),
